@@ -35,6 +35,10 @@ def doc_text(pid, di, outcome, envkind):
     line_t1, line_t2 = 4, 10
     if outcome == "timeout":
         lines += [f"# {ident}t3", "", "```scrut {timeout: 1s}", "$ sleep 3; echo late >> \"$RUN_LOG\"", "```", ""]
+    if outcome == "timeout_term":
+        lines += [f"# {ident}t3", "", "```scrut {timeout: 1s}", "$ trap '' TERM; sleep 3; echo late >> \"$RUN_LOG\"", "```", ""]
+    if outcome == "timeout_closed":
+        lines += [f"# {ident}t3", "", "```scrut {timeout: 1s}", "$ exec >/dev/null 2>&1; sleep 3; echo late >> \"$RUN_LOG\"", "```", ""]
     if outcome == "skip":
         lines += [f"# {ident}t3", "", "```scrut", "$ exit 80", "```", ""]
     return "\n".join(lines), {ident + "t1": line_t1, ident + "t2": line_t2}
@@ -96,7 +100,7 @@ def experiment(exp_id, scs):
                 pending = []
             time.sleep(0.02)
         # grace period: longer than the longest command of the experiment
-        if any("timeout" in pr["sc"]["docs"] for pr in procs):
+        if any(o.startswith("timeout") for pr in procs for o in pr["sc"]["docs"]):
             time.sleep(max(0.0, 3.8 - (time.time() - t_start)))
         snap_later = sorted(os.listdir(tmproot))
         bash = os.path.realpath(shutil.which("bash") or "/bin/bash")
